@@ -290,6 +290,8 @@ func pairReadsOn(d *fileDesc, reader *mcap.Reader, orders [2]string, r *rand.Ran
 	var ids [2][]any
 	var inexact [2]int
 	var end, why [2]string
+	var maxSlots, maxLive [2]int
+	var capMax [2]uint64
 	msgs := [2]*mcap.Message{{}, {}}
 	for step := 0; end[0] == "" || end[1] == ""; step++ {
 		k := step % 2
@@ -297,6 +299,17 @@ func pairReadsOn(d *fileDesc, reader *mcap.Reader, orders [2]string, r *rand.Ran
 			continue
 		}
 		s, c, m, err := its[k].NextInto(msgs[k])
+		if sl, lv, cb, ok := mcap.VerifIteratorMemory(its[k]); ok {
+			if sl > maxSlots[k] {
+				maxSlots[k] = sl
+			}
+			if lv > maxLive[k] {
+				maxLive[k] = lv
+			}
+			if cb > capMax[k] {
+				capMax[k] = cb
+			}
+		}
 		if err != nil {
 			end[k], why[k] = run.ErrClass(err), err.Error()
 			continue
@@ -322,7 +335,7 @@ func pairReadsOn(d *fileDesc, reader *mcap.Reader, orders [2]string, r *rand.Ran
 		}
 		out = append(out, wl.Ev{"ev": "Read", "mdcb": false, "mode": "index", "order": orders[k], "hasT": false, "form": "", "hasS": false, "hasE": false,
 			"topics": []any{}, "s": 0, "e": 0, "ids": ids[k], "inexact": inexact[k], "end": end[k], "why": why[k],
-			"maxSlots": 0, "maxLive": 0, "capKiB": 0, "mds": 0, "indexed": true, "mdsMatch": "none", "paired": true})
+			"maxSlots": maxSlots[k], "maxLive": maxLive[k], "capKiB": capMax[k] / 1024, "mds": 0, "indexed": true, "mdsMatch": "none", "paired": true})
 	}
 	return out
 }
